@@ -251,6 +251,7 @@ type c32Scenario struct {
 	Skip       bool        `json:"skip_verify,omitempty"`
 	HSEdits    []hsEdit    `json:"hs_edits,omitempty"` // structure-aware faults: a field inside a clear-text handshake message emptied / overwritten / dropped / repeated, lengths fixed up
 	Inject     []recInject `json:"inject,omitempty"`   // well-framed short records inserted at record boundaries (also in the protected phase)
+	Sweep      bool        `json:"sweep,omitempty"`    // part of a systematic offset sweep (thorough tier)
 	Tape       []int       `json:"tape,omitempty"`
 }
 
@@ -370,6 +371,33 @@ func genC32(seed uint64, tier string) any {
 			sc.KillAtMs = 3000
 		}
 	}
+	return sc
+}
+
+// genC32At: every second run of the thorough tier belongs to a systematic sweep. 8192 consecutive sweep runs
+// share one configuration and place a single fault at offsets 0..4095 of the client→server stream and then of
+// the server→client stream of that configuration's genuine transcript (a bit flip with a rotating bit; at every
+// 16th offset a truncation, at every 16th+8 an insertion instead).
+func genC32At(base uint64, i int, tier string) any {
+	if tier != "thorough" || i%2 == 0 {
+		return nil
+	}
+	k := i / 2
+	cfg, pos := k/8192, k%8192
+	sc := genC32(seedFor(base^0xc32c32, cfg), tier).(*c32Scenario)
+	sc.Mode, sc.Faults, sc.HSTrunc, sc.HSEdits, sc.Inject, sc.KeyUpdateBy = "corrupt", nil, nil, nil, nil, 0
+	sc.StubKind, sc.StubLen, sc.StubPrefix, sc.StubStall = 0, 0, 0, false
+	sc.Deadline = true
+	off := pos % 4096
+	f := byteFault{Dir: pos / 4096, Kind: "flip", Bound: -1, Delta: off, Bit: (off*7 + cfg) % 8, Len: 1 + off%23, RST: off%32 == 0, Seed: off}
+	switch off % 16 {
+	case 0:
+		f.Kind = "trunc"
+	case 8:
+		f.Kind = "insert"
+	}
+	sc.Faults = []byteFault{f}
+	sc.Sweep = true
 	return sc
 }
 
@@ -821,6 +849,12 @@ func execC32(t *testing.T, scAny any, keepLog bool) *Outcome {
 		h.Write(b)
 		o.Distinct = h.Sum()
 		o.Nontrivial = fired > 0 || sc.Mode == "stub"
+		if sc.Sweep {
+			o.count("probe.sweep_runs", 1)
+			if fired > 0 {
+				o.count("probe.sweep_runs_fault_inside_transcript", 1)
+			}
+		}
 		if usesSystemEntropy(sc.Client.Curves, sc.Server.Curves) {
 			o.count("probe.runs_reaching_system_entropy_mlkem", 1)
 			hh := kit.NewHash64()
@@ -950,14 +984,15 @@ func shrinkC32(scAny any) []any {
 func init() {
 	register(&Prop{
 		ID: "C32", Level: "fault_enumeration", Engine: "A (lockstep scheduler, simnet with byte-level corrupting filter or stub peer, synctest bubble)",
-		Rule: "seeded configuration x (corrupting transport with 1-3 byte-level faults placed relative to record/handshake-message boundaries of the genuine transcript, or a stub peer sending random / framed / half-genuine byte streams) x deadline or transport kill; non-trivial = a fault fired or a stub stream was sent; distinct = hash of (scenario, schedule tape)",
+		Rule: "thorough tier: every second run belongs to a systematic sweep (one fault at each of the first 4096 offsets of both directions of a configuration's genuine transcript, 8192 runs per configuration); otherwise seeded configuration x (corrupting transport with 1-3 byte-level faults placed relative to record/handshake-message boundaries of the genuine transcript, or a stub peer sending random / framed / half-genuine byte streams) x deadline or transport kill; non-trivial = a fault fired or a stub stream was sent; distinct = hash of (scenario, schedule tape)",
 		Real:   []string{"tls.Client and tls.Server: Handshake, Read, Write, ConnectionState, GetHandshakeLog + JSON marshal, OCSPResponse, VerifyHostname, CloseWrite, Close on partial and failed handshakes"},
 		Stub:   []string{"transport", "clock", "entropy", "stub peer in stub mode"},
 		Assume: []string{"a call that returns because its deadline expired has returned"},
 		FaultKinds: []string{"fault.byte_flip", "fault.byte_trunc", "fault.byte_insert", "fault.byte_dup", "fault.stub_kind_0", "fault.stub_kind_1", "fault.stub_kind_2", "fault.stub_kind_3", "fault.stub_stall", "fault.transport_killed", "fault.handshake_message_reframed", "fault.key_update_then_transport_closed",
 			"fault.handshake_field_empty", "fault.handshake_field_shrink", "fault.handshake_field_set", "fault.handshake_field_dropext", "fault.handshake_field_dupext", "fault.record_injected",
-			"net.read_deadline_expired", "probe.partial_log_marshalled", "probe.handshakes_ok_0", "probe.handshakes_ok_1", "probe.handshakes_ok_2"},
+			"net.read_deadline_expired", "probe.partial_log_marshalled", "probe.sweep_runs", "probe.sweep_runs_fault_inside_transcript", "probe.handshakes_ok_0", "probe.handshakes_ok_1", "probe.handshakes_ok_2"},
 		NotInjected: "no storage or crash-restart; allocation failure has no seam in Go",
+		GenAt:       genC32At,
 		Gen:         genC32, New: func() any { return &c32Scenario{} }, Exec: execC32, Shrink: shrinkC32,
 		QuickRuns: 48000, ThoroughRuns: 3000000,
 	})
